@@ -1,6 +1,7 @@
 //! vharness — drives the real versatiles code for the TLA+-based checks in /verif.
 //! It never judges: it executes cases and records observations as ndjson; TLC decides.
 mod c13;
+mod c14;
 mod c15;
 mod c20;
 mod mem;
@@ -19,6 +20,8 @@ fn main() {
 	let summary = match (args[1].as_str(), args[2].as_str()) {
 		("steps", "C13") => c13::steps(&args[3]),
 		("stress", "C13") => c13::stress(&args[3], &args[4], seed, thorough),
+		("replay", "C14") => c14::replay(&args[3], &args[4]),
+		("record", "C14") => c14::record(&args[3], seed, thorough),
 		("replay", "C15") => c15::replay(&args[3], &args[4]),
 		("record", "C15") => c15::record(&args[3], seed, thorough),
 		("replay", "C20") => c20::replay(&args[3], &args[4]),
